@@ -141,7 +141,7 @@ func TestC05OrderDup(t *testing.T) {
 		if rapid.IntRange(0, 3).Draw(rt, "startAtWrap") == 0 && cfg.AtLeastOnceMax > 1 && cfg.ExactlyOnceMax > 1 {
 			h = newWrapH(rt, "C05", cfg, []byte{1, 2})
 		} else {
-			h = newH(rt, "C05", sim.Options{Config: cfg})
+			h = newH(rt, "C05", asVolatileSession(rt, sim.Options{Config: cfg}))
 		}
 		h.Act("config AtLeastOnceMax=%d ExactlyOnceMax=%d", cfg.AtLeastOnceMax, cfg.ExactlyOnceMax)
 		var fc faultCounters
@@ -158,6 +158,14 @@ func TestC05OrderDup(t *testing.T) {
 		delete(actions, "loseTail")
 		actions["pub1"] = func(rt *rapid.T) { h.pub(1, rapid.Bool().Draw(rt, "retain")) }
 		actions["pub2"] = func(rt *rapid.T) { h.pub(2, rapid.Bool().Draw(rt, "retain")) }
+		// traffic in the other direction shares the read routine's buffers
+		actions["brokerSend"] = func(rt *rapid.T) {
+			c := h.Current()
+			if c == nil || !c.Accepted() || c.Blackholed() {
+				rt.Skip("no accepted connection")
+			}
+			h.brokerSend(byte(rapid.IntRange(0, 2).Draw(rt, "inboundLevel")), rapid.IntRange(0, 40).Draw(rt, "inboundLen"))
+		}
 		// several goroutines publish at once
 		actions["burst"] = func(rt *rapid.T) {
 			n := rapid.IntRange(2, 6).Draw(rt, "n")
@@ -223,7 +231,7 @@ func TestC05OrderDup(t *testing.T) {
 		// "… after a reconnect or restart all unacknowledged ones are
 		// retransmitted in that same order before anything newly submitted":
 		// half of the histories end in a stop and an adoption
-		if rapid.Bool().Draw(rt, "restartAtEnd") {
+		if rapid.Bool().Draw(rt, "restartAtEnd") && !h.PlainRecords { // (a session without the checksum layer cannot be adopted)
 			h.Shutdown(5 * time.Second)
 			k := rapid.IntRange(2, h.Store.NOps()).Draw(rt, "stopPoint")
 			n, pend := h.restart(restartOpts{K: k, Late: rapid.Bool().Draw(rt, "late"), Config: cfg})
